@@ -611,7 +611,8 @@ def c05(rec):
 # ---------------------------------------------------------------- C07
 
 def c07(rec):
-    if rec.get("mod") != "storage":
+    # records of the contract route (mod "wasm") are MsgPostFile deliveries too: the same accounting must hold after them
+    if rec.get("mod") not in ("storage", "wasm") or (rec.get("mod") == "wasm" and not isinstance(rec.get("op"), dict)):
         return []
     out = unchanged_if_failed(rec, "C07") if opk(rec)[0] == "postFile" else []
     k, v = opk(rec)
@@ -647,10 +648,17 @@ class C12:
     def __call__(self, rec):
         if rec.get("mod") != "storage":
             return []
-        if rec["hist"] != self.hist:
+        fresh = rec["hist"] != self.hist
+        if fresh:
             self.hist, self.dep, self.last = rec["hist"], {}, {}
         out = []
         pre, post = rec["pre"], rec["post"]
+        if fresh:
+            # gauges the chain started with (seeded through genesis): their deposits were not observed — what the
+            # record says was deposited is taken as such
+            for _, g in pre["gauges"]:
+                for d, a in g["coins"]:
+                    self.dep[(g["account"], d)] = self.dep.get((g["account"], d), 0) + a
         b0, b1 = bank(pre), bank(post)
         g0, g1 = dict(pre["gauges"]), dict(post["gauges"])
         accs = {g["account"]: g for g in list(g0.values()) + list(g1.values())}
@@ -707,6 +715,9 @@ def c14(rec):
     if rec.get("mod") != "storage":
         return []
     k, v = opk(rec)
+    if k == "setParams":
+        # the quorum is "the configured minimum": what governance set by key must be what the module reads
+        return gov_params(rec, "C14", ["attestMinToPass", "attestFormSize"])
     out = []
     pre, post = rec["pre"], rec["post"]
     if k in ("attest", "report"):
